@@ -126,9 +126,23 @@ func TestC10(t *testing.T) {
 			return
 		}
 		wit := map[string]any{"key": mon.FullHex(key[:]), "nonce": mon.FullHex(nonce[:]), "msg": mon.FullHex(msg), "len": n}
+		g := &snaps{}
+		g.add("key", key[:])
+		g.add("nonce", nonce[:])
+		g.add("message", msg)
+		g.add("libsodium box", sod)
+		chk := func(api string) {
+			if ch := g.changed(); ch != "" {
+				wit["modified"], wit["by"] = ch, api
+				m.Violation("input-or-earlier-output-modified:"+api, wit)
+			}
+			m.Count("input_snapshots_verified", 1)
+		}
 		out, om := dst(r, n+secretbox.Overhead)
 		wit["out_shape"] = om
 		got := secretbox.Seal(out, msg, nonce, key)
+		chk("secretbox.Seal")
+		g.add("Seal output", got)
 		m.Eval()
 		m.Count("go_to_sodium:secretbox", 1)
 		m.Distinct(fmt.Sprintf("secretbox len=%s out=%s", lenClass(n), om))
@@ -147,6 +161,8 @@ func TestC10(t *testing.T) {
 		}
 		out2, om2 := dst(r, n)
 		pt, ok := secretbox.Open(out2, sod, nonce, key)
+		chk("secretbox.Open")
+		g.add("Open output", pt)
 		m.Eval()
 		m.Count("sodium_to_go:secretbox", 1)
 		if !ok || !appended(out2, pt, msg) {
@@ -156,7 +172,9 @@ func TestC10(t *testing.T) {
 		// one bit flipped: tag | first 32 ciphertext bytes | rest
 		bad, reg := tamper(r, sod, 16, 48)
 		_, sok := sodiumnacl.SecretboxOpenEasy(bad, nonce, key)
+		g.add("tampered box", bad)
 		pt, ok = secretbox.Open(nil, bad, nonce, key)
+		chk("secretbox.Open(tampered)")
 		m.Eval()
 		m.Count("tamper_cases:secretbox", 1)
 		if ok && !sok {
@@ -198,8 +216,25 @@ func TestC10(t *testing.T) {
 			m.Inconclusive(fmt.Sprintf("libsodium crypto_box_easy refused honest keys at case %d", i))
 			return
 		}
+		g := &snaps{}
+		g.add("skA", skA[:])
+		g.add("pkA", pkA[:])
+		g.add("skB", skB[:])
+		g.add("pkB", pkB[:])
+		g.add("nonce", nonce[:])
+		g.add("message", msg)
+		g.add("libsodium box", sod)
+		chk := func(api string) {
+			if ch := g.changed(); ch != "" {
+				wit["modified"], wit["by"] = ch, api
+				m.Violation("input-or-earlier-output-modified:"+api, wit)
+			}
+			m.Count("input_snapshots_verified", 1)
+		}
 		out, om := dst(r, n+box.Overhead)
 		got := box.Seal(out, msg, nonce, pkB, skA)
+		chk("box.Seal")
+		g.add("Seal output", got)
 		m.Eval()
 		m.Count("go_to_sodium:box", 1)
 		m.Distinct(fmt.Sprintf("box len=%s out=%s", lenClass(n), om))
@@ -214,6 +249,8 @@ func TestC10(t *testing.T) {
 		}
 		out2, _ := dst(r, n)
 		pt, ok := box.Open(out2, sod, nonce, pkA, skB)
+		chk("box.Open")
+		g.add("Open output", pt)
 		m.Eval()
 		m.Count("sodium_to_go:box", 1)
 		if !ok || !appended(out2, pt, msg) {
@@ -226,6 +263,9 @@ func TestC10(t *testing.T) {
 		fill(kBA[:], 0x55)
 		box.Precompute(&kAB, pkB, skA)
 		box.Precompute(&kBA, pkA, skB)
+		chk("box.Precompute")
+		g.add("kAB", kAB[:])
+		g.add("kBA", kBA[:])
 		ks, kok := sodiumnacl.BoxBeforeNM(pkB, skA)
 		m.Eval()
 		m.Count("precompute_symmetry_checked", 1)
@@ -239,7 +279,9 @@ func TestC10(t *testing.T) {
 		}
 		out3, _ := dst(r, n+box.Overhead)
 		got = box.SealAfterPrecomputation(out3, msg, nonce, &kAB)
+		chk("box.SealAfterPrecomputation")
 		sodAfter := sodiumnacl.BoxEasyAfterNM(msg, nonce, &ks)
+		g.add("libsodium afternm box", sodAfter)
 		m.Eval()
 		m.Count("go_to_sodium:box_afternm", 1)
 		if !appended(out3, got, sodAfter) {
@@ -248,6 +290,7 @@ func TestC10(t *testing.T) {
 			m.Violation("box-sealafterprecomputation-not-opened-by-libsodium", wit)
 		}
 		pt, ok = box.OpenAfterPrecomputation(nil, sodAfter, nonce, &kBA)
+		chk("box.OpenAfterPrecomputation")
 		m.Eval()
 		m.Count("sodium_to_go:box_afternm", 1)
 		if !ok || !bytes.Equal(pt, msg) {
@@ -284,7 +327,20 @@ func TestC10(t *testing.T) {
 		}
 		out, om := dst(r, n+box.AnonymousOverhead)
 		wit["out_shape"], wit["rand"] = om, rm
+		g := &snaps{}
+		g.add("skB", skB[:])
+		g.add("pkB", pkB[:])
+		g.add("message", msg)
+		chk := func(api string) {
+			if ch := g.changed(); ch != "" {
+				wit["modified"], wit["by"] = ch, api
+				m.Violation("input-or-earlier-output-modified:"+api, wit)
+			}
+			m.Count("input_snapshots_verified", 1)
+		}
 		got, err := box.SealAnonymous(out, msg, pkB, src)
+		chk("box.SealAnonymous")
+		g.add("SealAnonymous output", got)
 		m.Eval()
 		m.Count("go_to_sodium:anonymous", 1)
 		m.Distinct(fmt.Sprintf("anon len=%s out=%s %s", lenClass(n), om, rm))
@@ -310,7 +366,9 @@ func TestC10(t *testing.T) {
 			return
 		}
 		out2, _ := dst(r, n)
+		g.add("libsodium sealed box", sod)
 		pt, ok := box.OpenAnonymous(out2, sod, pkB, skB)
+		chk("box.OpenAnonymous")
 		m.Eval()
 		m.Count("sodium_to_go:anonymous", 1)
 		if !ok || !appended(out2, pt, msg) {
@@ -362,8 +420,22 @@ func TestC10(t *testing.T) {
 		msg := mon.Bytes(r, n)
 		wit := map[string]any{"sk": mon.FullHex(sk[:]), "pk": mon.FullHex(pk[:]), "msg": mon.FullHex(msg), "len": n, "keys_from": src}
 		sod := sodiumnacl.Sign(msg, sk)
+		g := &snaps{}
+		g.add("sk", sk[:])
+		g.add("pk", pk[:])
+		g.add("message", msg)
+		g.add("libsodium signed message", sod)
+		chk := func(api string) {
+			if ch := g.changed(); ch != "" {
+				wit["modified"], wit["by"] = ch, api
+				m.Violation("input-or-earlier-output-modified:"+api, wit)
+			}
+			m.Count("input_snapshots_verified", 1)
+		}
 		out, om := dst(r, n+sign.Overhead)
 		got := sign.Sign(out, msg, sk)
+		chk("sign.Sign")
+		g.add("Sign output", got)
 		m.Eval()
 		m.Count("go_to_sodium:sign", 1)
 		m.Distinct(fmt.Sprintf("sign len=%s out=%s keys=%s", lenClass(n), om, src))
@@ -378,6 +450,7 @@ func TestC10(t *testing.T) {
 		}
 		out2, _ := dst(r, n)
 		pt, ok := sign.Open(out2, sod, pk)
+		chk("sign.Open")
 		m.Eval()
 		m.Count("sodium_to_go:sign", 1)
 		if !ok || !appended(out2, pt, msg) {
@@ -414,7 +487,21 @@ func TestC10(t *testing.T) {
 		msg := mon.Bytes(r, n)
 		wit := map[string]any{"key": mon.FullHex(key[:]), "msg": mon.FullHex(msg), "len": n}
 		sod := sodiumnacl.Auth(msg, key)
+		g := &snaps{}
+		g.add("key", key[:])
+		g.add("message", msg)
+		chk := func(api string) {
+			if ch := g.changed(); ch != "" {
+				wit["modified"], wit["by"] = ch, api
+				m.Violation("input-or-earlier-output-modified:"+api, wit)
+			}
+			m.Count("input_snapshots_verified", 1)
+		}
 		got := auth.Sum(msg, key)
+		chk("auth.Sum")
+		if got != nil {
+			g.add("Sum output", got[:])
+		}
 		m.Eval()
 		m.Count("go_to_sodium:auth", 1)
 		m.Distinct(fmt.Sprintf("auth len=%d", min(n, 300)))
@@ -432,7 +519,10 @@ func TestC10(t *testing.T) {
 		}
 		m.Eval()
 		m.Count("sodium_to_go:auth", 1)
-		if !auth.Verify(sod[:], msg, key) {
+		g.add("libsodium tag", sod[:])
+		vok := auth.Verify(sod[:], msg, key)
+		chk("auth.Verify")
+		if !vok {
 			wit["tag"] = mon.FullHex(sod[:])
 			m.Violation("auth-verify-rejects-crypto_auth-tag", wit)
 		}
